@@ -1,4 +1,167 @@
-import DefconModel.Lemmas.Parts
+/-
+C18 — A failed save does no harm and loses nothing.
+
+Theorems about M-SaveSteps (`DefconModel/SaveSteps.lean`): `Font.save` as a list of atomic steps
+with a failure injected after any prefix.  `failAt m w k` runs the first `k` steps of the save's
+plan and then the `finally` clause.
+-/
+import DefconModel.SaveSteps
+
 namespace DefconModel.Props.C18
-theorem placeholder : True := trivial
+open DefconModel DefconModel.SaveSteps
+
+/-! ### identity kept, nothing temporary left -/
+
+theorem exec_identity (m : Mode) (w : World) (s : Step) :
+    (exec m w s).font.path = w.font.path ∧ (exec m w s).font.format = w.font.format ∧
+    (exec m w s).font.dirty = w.font.dirty ∧ (exec m w s).font.comps = w.font.comps ∧
+    (exec m w s).font.glyphs = w.font.glyphs := by
+  cases s <;> simp only [exec] <;> try (cases target m <;> simp [putTarget])
+  · cases w.temp <;> simp
+
+theorem runSteps_identity (m : Mode) (w : World) (steps : List Step) :
+    (runSteps m w steps).font.path = w.font.path ∧ (runSteps m w steps).font.format = w.font.format ∧
+    (runSteps m w steps).font.dirty = w.font.dirty ∧ (runSteps m w steps).font.comps = w.font.comps ∧
+    (runSteps m w steps).font.glyphs = w.font.glyphs := by
+  unfold runSteps
+  induction steps generalizing w with
+  | nil => simp
+  | cons s rest ih =>
+    simp only [List.foldl_cons]
+    obtain ⟨a, b, c, d, e⟩ := exec_identity m w s
+    obtain ⟨a', b', c', d', e'⟩ := ih (exec m w s)
+    exact ⟨a'.trans a, b'.trans b, c'.trans c, d'.trans d, e'.trans e⟩
+
+/-- Whatever step fails, in whatever mode: the font keeps its path and format, still reports
+the dirty state it had (so it is still dirty if anything was pending), and its in-memory content
+is untouched. -/
+theorem identity_kept (m : Mode) (w : World) (k : Nat) :
+    (failAt m w k).font.path = w.font.path ∧ (failAt m w k).font.format = w.font.format ∧
+    (failAt m w k).font.dirty = w.font.dirty ∧ (failAt m w k).font.comps = w.font.comps ∧
+    (failAt m w k).font.glyphs = w.font.glyphs := by
+  unfold failAt cleanup
+  exact runSteps_identity m w _
+
+/-- … and no temporary directory is left behind, after a failure at any step and after success. -/
+theorem no_temp_left (m : Mode) (w : World) (k : Nat) : (failAt m w k).temp = none ∧ (save m w).temp = none := by
+  unfold failAt save finalize cleanup; simp
+
+/-! ### an existing destination at another path -/
+
+/-- steps that write into the temporary UFO leave every UFO on disk alone -/
+theorem exec_temp_disk (p : Nat) (w : World) (s : Step) (hs : s ≠ .removeDest p ∧ s ≠ .moveTemp p)
+    (hs2 : ∀ q, s = .removeDest q ∨ s = .moveTemp q → q = p) : (exec (.saveAsOver p) w s).disk = w.disk := by
+  cases s with
+  | mkTemp => rfl
+  | writeComp i => simp [exec, target, putTarget]
+  | openGlyphSet => rfl
+  | writeGlyph g => simp [exec, target, putTarget]
+  | writeContents => simp [exec, target, putTarget]
+  | removeDest q => have := hs2 q (Or.inl rfl); subst this; exact absurd rfl hs.1
+  | moveTemp q => have := hs2 q (Or.inr rfl); subst this; exact absurd rfl hs.2
+
+theorem runSteps_temp_disk (p : Nat) (w : World) (steps : List Step)
+    (h : ∀ s ∈ steps, s ≠ .removeDest p ∧ s ≠ .moveTemp p)
+    (h2 : ∀ s ∈ steps, ∀ q, s = .removeDest q ∨ s = .moveTemp q → q = p) :
+    (runSteps (.saveAsOver p) w steps).disk = w.disk := by
+  unfold runSteps
+  induction steps generalizing w with
+  | nil => rfl
+  | cons s rest ih =>
+    simp only [List.foldl_cons]
+    rw [ih _ (fun x hx => h x (by simp [hx])) (fun x hx => h2 x (by simp [hx]))]
+    exact exec_temp_disk p w s (h s (by simp)) (h2 s (by simp))
+
+/-- the plan of an overwriting save-as ends with "remove destination, move temp in"; everything
+before writes only into the temporary UFO -/
+theorem plan_over_prefix (f : Font) (p : Nat) :
+    ∃ pre, plan f (.saveAsOver p) = pre ++ [.removeDest p, .moveTemp p] ∧
+      (∀ s ∈ pre, s ≠ .removeDest p ∧ s ≠ .moveTemp p) ∧
+      (∀ s ∈ pre, ∀ q, s = .removeDest q ∨ s = .moveTemp q → q = p) := by
+  refine ⟨[Step.mkTemp] ++
+      ((List.range f.comps.length).filter (fun i => isSaveAs (.saveAsOver p) || f.compDirty.getD i false)).map Step.writeComp ++
+      [Step.openGlyphSet] ++
+      ((f.glyphs.map Prod.fst).filter (fun g => isSaveAs (.saveAsOver p) || g ∈ f.glyphDirty)).map Step.writeGlyph ++
+      [Step.writeContents], by unfold plan; simp only [List.append_assoc], ?_, ?_⟩
+  · intro s hs
+    simp only [List.mem_append, List.mem_cons, List.mem_map, List.mem_singleton, List.not_mem_nil, or_false] at hs
+    rcases hs with (((rfl | ⟨i, _, rfl⟩) | rfl) | ⟨g, _, rfl⟩) | rfl <;> simp
+  · intro s hs q hq
+    simp only [List.mem_append, List.mem_cons, List.mem_map, List.mem_singleton, List.not_mem_nil, or_false] at hs
+    rcases hs with (((rfl | ⟨i, _, rfl⟩) | rfl) | ⟨g, _, rfl⟩) | rfl <;> simp at hq
+
+/-- Full statement: a destination at another path is untouched by a failure at ANY step. -/
+def OtherDestinationUntouched : Prop :=
+  ∀ (w : World) (p k : Nat), p ≠ w.font.path → k < (plan w.font (.saveAsOver p)).length →
+    lookup (failAt (.saveAsOver p) w k).disk p = lookup w.disk p
+
+/-- It holds for every failure before the final replace (every write, close, …): the whole disk
+is exactly as it was. -/
+theorem other_destination_untouched_partial (w : World) (p k : Nat)
+    (hk : k + 2 ≤ (plan w.font (.saveAsOver p)).length) :
+    (failAt (.saveAsOver p) w k).disk = w.disk := by
+  obtain ⟨pre, hplan, h1, h2⟩ := plan_over_prefix w.font p
+  unfold failAt cleanup
+  simp only
+  have hlen : k ≤ pre.length := by
+    rw [hplan] at hk; simp at hk; omega
+  have htake : (plan w.font (.saveAsOver p)).take k = pre.take k := by
+    rw [hplan, List.take_append_of_le_length hlen]
+  rw [htake]
+  exact runSteps_temp_disk p w _ (fun s hs => h1 s (List.mem_of_mem_take hs)) (fun s hs => h2 s (List.mem_of_mem_take hs))
+
+/-- … and fails in the window between "destination removed" and "temporary UFO moved in"
+(finding F20). -/
+def w20 : World :=
+  { font := { comps := [7], compDirty := [true], glyphs := [], glyphDirty := [], path := 1, format := 3, dirty := true },
+    disk := [(1, { comps := [5] }), (2, { comps := [9] })] }
+
+theorem other_destination_violated : ¬ OtherDestinationUntouched := by
+  intro h
+  have := h w20 2 5 (by decide) (by decide)
+  revert this
+  decide
+
+/-! ### retry after a failure -/
+
+/-- Full statement: after a failure at any step, a successful in-place retry makes the font's UFO
+show what memory holds. -/
+def RetryPersists : Prop :=
+  ∀ (m : Mode) (w : World) (k : Nat), k < (plan w.font m).length →
+    let w1 := failAt m w k
+    reopen (save .inPlace w1) w1.font.path = some (w1.font.comps, w1.font.glyphs)
+
+/-- a font opened from UFO 1 with one changed component and one new glyph -/
+def w19 : World :=
+  { font := { comps := [7, 3], compDirty := [true, false], glyphs := [(0, 4), (1, 6)], glyphDirty := [1],
+              path := 1, format := 3, dirty := true },
+    disk := [(1, { comps := [5, 3], files := [(0, 4)], listing := [0] })] }
+
+/-- without a failure the save persists everything (non-vacuity of the statement) -/
+example : reopen (save .inPlace w19) 1 = some ([7, 3], [(1, 6), (0, 4)]) := by decide
+
+/-- F19, in place: the failure hits after the new glyph's file was written (and its dirty flag
+cleared) but before contents.plist: the retry does not list the glyph. -/
+theorem retry_violated_in_place :
+    reopen (save .inPlace (failAt .inPlace w19 3)) 1 ≠ some ([7, 3], [(1, 6), (0, 4)]) := by decide
+
+/-- F19, save-as: the failed save-as cleared the flags while writing elsewhere; the retry to the
+font's own path writes nothing. -/
+theorem retry_violated_save_as :
+    reopen (save .inPlace (failAt (.saveAsNew 2) w19 2)) 1 ≠ some ([7, 3], [(1, 6), (0, 4)]) := by decide
+
+theorem retry_violated : ¬ RetryPersists := by
+  intro h
+  have := h .inPlace w19 3 (by decide)
+  revert this
+  decide
+
+/-- What does hold: a failure before the first write leaves the world exactly as it was (so the
+retry is an ordinary save). -/
+theorem retry_persists_partial (m : Mode) (w : World) (h : w.temp = none) (hg : w.gsContents = []) :
+    failAt m w 0 = w := by
+  unfold failAt cleanup runSteps
+  cases w with
+  | mk f d t g => simp at h hg; subst h; subst hg; simp
+
 end DefconModel.Props.C18
